@@ -116,3 +116,13 @@ Theorem C03_mexpr_eps_shape_refuted :
   m_legacy W3_tree W3_formula = Ok FF /\ models atom_denote W3_tree env_empty W3_formula.
 Proof. exact mexpr_eps_shape_refuted. Qed.
 Print Assumptions C03_mexpr_eps_shape_refuted.
+
+(* non-vacuity of C03_satb_spec: the concrete atom decider meets its premise, and the oracle is
+   non-constant on a real tree (E1 holds, the wide witness does not) *)
+Example C03_satb_hypotheses_satisfiable :
+  (forall a e, atom_dec a e = true <-> atom_denote a e) /\
+  shape_ok E1_tree = true /\ no_numq E1_formula = true /\
+  satb E1_tree atom_dec 0 env_empty E1_formula = true /\
+  satb W1_tree atom_dec 0 env_empty W1_formula = false.
+Proof. split; [exact atom_dec_spec|]. repeat split; vm_compute; reflexivity. Qed.
+Print Assumptions C03_satb_hypotheses_satisfiable.
